@@ -181,6 +181,8 @@ class DMLMixin:
                     f = f0
                 odku_fns.append((t.colidx[cname.lower()], f))
         auto_idx = next((i for i, c in enumerate(t.cols) if c.auto), None)
+        from .query import _has_node
+        has_uassign = query is not None and _has_node(query, ('uassign',))
 
         def insert_one(rt, vals, sel_rows):
             """vals: list aligned with col_idx (None for DEFAULT marker objects handled before)."""
@@ -246,15 +248,24 @@ class DMLMixin:
                     n += insert_one(rt, vals, None)
             else:
                 env = Env([], None, rt)
-                if odku_fns is not None and nsel:
-                    # need the select's source rows for ON DUPLICATE KEY UPDATE: re-run via hook
-                    pairs = self._select_with_sources(q, env)
-                    for vals, srows in pairs:
-                        n += insert_one(rt, vals, srows)
-                else:
-                    _c, rws = q(env)
-                    for vals in rws:
-                        n += insert_one(rt, list(vals), None)
+                snaps = None
+                if has_uassign and odku_fns is not None:
+                    rt.sess.uv_trace = snaps = []
+                try:
+                    if odku_fns is not None and nsel:
+                        # need the select's source rows for ON DUPLICATE KEY UPDATE
+                        pairs = self._select_with_sources(q, env)
+                    else:
+                        _c, rws = q(env)
+                        pairs = [(list(vals), None) for vals in rws]
+                finally:
+                    rt.sess.uv_trace = None
+                if snaps is not None and len(snaps) != len(pairs):
+                    snaps = None
+                for i, (vals, srows) in enumerate(pairs):
+                    if snaps is not None:
+                        rt.sess.uvars.update(snaps[i])
+                    n += insert_one(rt, vals, srows)
             if rt.sess.pending_insert_id is not None:
                 rt.sess.last_insert_id = rt.sess.pending_insert_id
                 rt.sess.insert_id_for_client = rt.sess.pending_insert_id
